@@ -70,4 +70,10 @@ def run(ctx):
     lt = ctx.path("klong.ndjson")
     vlib.kvh(["trace", "kmerlong", ctx.seed, 68500, dense], out=lt)
     vlib.validate_trace(ctx, "LongTrace", lt, "a 68 500-base sequence (positions beyond 2^16), every item judged from the input bytes", "kinit")
+    gp = ctx.path("kgaps.ndjson")
+    vlib.kvh(["trace", "gaps", ctx.seed, "kmer"], out=gp)
+    vlib.validate_trace(ctx, "LongTrace", gp, "gaps of 0..130 identical ambiguous bytes", "kinit")
+    ia = ctx.path("kiterapi.ndjson")
+    vlib.kvh(["trace", "iterapi", ctx.seed + 3, 600 if ctx.thorough() else 150], out=ia)
+    vlib.validate_trace(ctx, "FactsTrace", ia, "count / last / nth on partially consumed iterators", "iterapi")
     ctx.exhaustive = False
